@@ -133,10 +133,11 @@ def step (s : PS) (fs : List String) (impl : String) : PS × String × String :=
           let (inner, line, _) := S_retry.step s.inner fs impl
           let mb : Int := match fs with | [_, b] => if b = "d" then 262144 else (b.toInt?.getD 262144) | _ => 262144
           let st0 := { c.st with maxBuf := mb }
-          let (st', _, evs, _) := st0.step 64 .new
+          let (st', res, evs, _) := st0.step 64 .new
           let (ps', pe2) := pkEvents st0 st' evs s.ps
-          let (mon, v) := match ipk with | some e => monitorPk s.mon e false | none => (s.mon, "-")
-          ({ s with inner := inner, ps := ps', mon := mon }, line ++ " pk=" ++ showPEvs pe2, v)
+          let failed := res != .ok
+          let (mon, v) := match ipk with | some e => monitorPk s.mon e failed | none => (s.mon, "-")
+          ({ s with inner := inner, ps := ps', mon := mon, dead := failed }, line ++ " pk=" ++ showPEvs pe2, v)
       else if s.dead ∨ !c.st.started then (s, "no-stream pk=-", "-")
       else
         let aop : Option AppOp := match fs with
